@@ -164,6 +164,12 @@ func c16Jobs(tier string) []*Job {
 					sc := timedScen(fmt.Sprintf("C16-N%d-ratio%.1f-%s-tx%d", n, float64(ratio)/10, amevName(a), ii), n, "C16", withAMEV(a), withDyn(ratio), withPool(), withNewTx(ins...), withHeights(3), withK(k), withHorizon(3*5+4))
 					sc.Dev.NotifyLag = len(ins) > 0
 					jobs = append(jobs, job(sc, per))
+					if len(ins) > 0 && (ratio == 15 || ratio == 30) && a == -1 {
+						// the same with the documented single-use subscription: a notification only after SubscribeForTxs
+						one := timedScen(fmt.Sprintf("C16-N%d-ratio%.1f-%s-tx%d-one-shot-subscription", n, float64(ratio)/10, amevName(a), ii), n, "C16", withAMEV(a), withDyn(ratio), withPool(), withNewTx(ins...), withHeights(3), withK(k), withHorizon(3*5+4))
+						one.OneShotSub = true
+						jobs = append(jobs, job(one, per))
+					}
 				}
 			}
 		}
